@@ -4,6 +4,7 @@ use proptest::prelude::*;
 use serde::{Deserialize, Serialize};
 use serde_json::{json, Value};
 
+use stun_types::attribute::{AttributeType, RawAttribute};
 use stun_types::message::{Message, MessageHeader, MessageType, TransactionId};
 
 use crate::common::*;
@@ -16,6 +17,14 @@ pub enum Case {
     TypeValue(u16),
     ClassMethod(u8, u16),
     Tid(#[serde(with = "u128_hex")] u128),
+    /// the header fields of a built message whose attributes fill `body` bytes (up to the 16-bit limit)
+    Framed {
+        class: u8,
+        method: u16,
+        #[serde(with = "u128_hex")]
+        tid: u128,
+        body: u32,
+    },
 }
 
 fn test(case: &Case, st: &mut Stats) -> TestResult {
@@ -182,11 +191,126 @@ fn test(case: &Case, st: &mut Stats) -> TestResult {
             );
             st.nontrivial(digest(&("tid", x)));
         }
+        Case::Framed { class, method, tid, body } => {
+            let (class, method, tid) = (*class & 3, *method & 0xfff, *tid & TID_MASK);
+            let body = ((*body as usize) & !3).min(65_532);
+            st.class("header of a built message with attributes");
+            let mt = MessageType::from_class_method(lib_class(class), method);
+            // filler raw attributes of distinct optional types
+            let mut values: Vec<Vec<u8>> = vec![];
+            let mut left = body;
+            while left >= 4 {
+                let v = (left - 4).min(760);
+                values.push(crate::gen::fill_bytes(v, left as u64, 3));
+                left -= 4 + ((v + 3) & !3);
+            }
+            let mut b = Message::builder(mt, TransactionId::from(tid));
+            for (i, v) in values.iter().enumerate() {
+                b.add_raw_attribute(RawAttribute::new(AttributeType::new(0xC100 + i as u16), v))
+                    .map_err(|e| Fail::new("harness", format!("filler refused: {:?}", e)))?;
+            }
+            let built = guard(|| b.build()).map_err(|p| Fail::new("c19-panic", p))?;
+            let mut dest = vec![0x5au8; built.len() + 3];
+            let n = guard(|| b.write_into(&mut dest)).map_err(|p| Fail::new("c19-panic", p))?.map_err(|e| Fail::new("c19-encode", format!("write_into failed: {:?}", e)))?;
+            for (what, bytes) in [("build()", &built[..]), ("write_into()", &dest[..n.min(dest.len())])] {
+                ensure!(bytes.len() == 20 + body, "c19-encode", "{}: {} bytes for a body of {}", what, bytes.len(), body);
+                let want_type = refstun::type_encode(class, method).to_be_bytes();
+                ensure!(
+                    bytes[0..2] == want_type,
+                    "c19-encode",
+                    "{}: class {} method {:#x} with a body of {} bytes: type bytes {:02x}{:02x}, the RFC interleaving is {:02x}{:02x}",
+                    what,
+                    class,
+                    method,
+                    body,
+                    bytes[0],
+                    bytes[1],
+                    want_type[0],
+                    want_type[1]
+                );
+                ensure!(
+                    bytes[2..4] == (body as u16).to_be_bytes(),
+                    "c19-encode",
+                    "{}: length field {:02x}{:02x} for a body of {} bytes",
+                    what,
+                    bytes[2],
+                    bytes[3],
+                    body
+                );
+                let mut want = Vec::new();
+                want.extend_from_slice(&0x2112_A442u32.to_be_bytes());
+                want.extend_from_slice(&tid.to_be_bytes()[4..]);
+                ensure!(
+                    bytes[4..20] == want[..],
+                    "c19-tid",
+                    "{}: bytes 4..20 are {} expected cookie||id {} (body {} bytes)",
+                    what,
+                    hex(&bytes[4..20]),
+                    hex(&want),
+                    body
+                );
+            }
+            // whether the parser accepts the built message is C03's statement; the fields are read
+            // back through the header decoder when it does not
+            let (got_type, got_tid) = match Message::from_bytes(&built) {
+                Ok(m) => (m.get_type(), m.transaction_id()),
+                Err(_) => {
+                    st.class("built message refused by the full parser (C03's business); header decoder used");
+                    let h = MessageHeader::from_bytes(&built).map_err(|e| Fail::new("c19-encode", format!("header of the built message refused: {:?}", e)))?;
+                    (h.get_type(), h.transaction_id())
+                }
+            };
+            let tid_back: u128 = got_tid.into();
+            struct M(MessageType);
+            impl M {
+                fn class(&self) -> stun_types::message::MessageClass {
+                    self.0.class()
+                }
+                fn method(&self) -> u16 {
+                    self.0.method()
+                }
+            }
+            let m = M(got_type);
+            ensure!(
+                class_num(m.class()) == class && m.method() == method && tid_back == tid,
+                "c19-encode",
+                "a message built as class {} method {:#x} id {:#x} with a body of {} bytes reads back as {:?} {:#x} {:#x}",
+                class,
+                method,
+                tid,
+                body,
+                m.class(),
+                m.method(),
+                tid_back
+            );
+            st.nontrivial(digest(&("framed", class, method, tid, body)));
+        }
     }
     Ok(())
 }
 
 pub fn run(ctx: &Ctx) -> EvidenceMeta {
+    // header fields of built messages of every size class up to the 16-bit limit
+    let mut framed = vec![];
+    for body in [0u32, 4, 8, 760, 65_500, 65_512, 65_516, 65_520, 65_524, 65_528, 65_532] {
+        for class in 0..4u8 {
+            for method in [0u16, 1, 2, 3, 0xfff, 0x800, 0x7ff, 0x555, 0xaaa] {
+                for tid in [0u128, TID_MASK, 0x0123_4567_89ab_cdef_0123_4567] {
+                    framed.push(Case::Framed { class, method, tid, body });
+                }
+            }
+        }
+    }
+    ctx.enumerate("framed-boundary", &framed, test);
+    ctx.proptest(
+        "framed-generated",
+        ctx.n(1_000, 60_000),
+        || {
+            (0u8..4, crate::gen::method_strategy(), tid_strategy(), prop_oneof![3 => 0u32..=2000, 2 => 65_400u32..=65_532, 1 => 0u32..=65_532])
+                .prop_map(|(class, method, tid, body)| Case::Framed { class, method, tid, body })
+        },
+        test,
+    );
     // exhaustive: all 65536 type values
     let tv: Vec<Case> = (0..=u16::MAX).map(Case::TypeValue).collect();
     ctx.enumerate("type-values", &tv, test);
